@@ -76,7 +76,13 @@ def cases(rng, tier):
         else:
             y = rng.values(n)
         s = rng.choice([None, 0.0, 1e-4, 1e-2, 0.5, 1.0, 10.0, 100.0])
-        int_y = rng.random() < 0.2
+        if rng.random() < 0.12:
+            # a ripple on a high level (a counter far from zero): the default smoothing condition is about the SPREAD
+            shape = "level"
+            level = rng.choice([10 ** 9, 2 ** 33, -(10 ** 9)])
+            y = [Fraction(level) + Fraction(int(8 * np.sin(float(v) / 3) + rng.randint(-2, 2)), 8) for v in x]
+            s = rng.choice([None, None, 0.5])
+        int_y = rng.random() < 0.2 and shape != "level"
         if int_y:
             y = [Fraction(int(v * 4)) for v in y]          # counts: held with an integer dtype
             if shape == "affine":
@@ -144,7 +150,8 @@ def compare(c, io, mo):
     s_model = float(Fraction(mo[0][3:]))
     s_eff = s_model if c["s"] is None else c["s"]
     want = scipy_direct(x, y, s_eff)
-    scale = max(1.0, float(np.max(np.abs(y))))
+    # relative to the spread of the data, plus the rounding that the level itself forces on every value
+    scale = max(1.0, float(np.max(np.abs(y - np.mean(y))))) + 1e-7 ** -1 * 256 * 2.3e-16 * float(np.max(np.abs(y)))
     for key in ("direct", "smooth", "fun"):
         if key in io and np.max(np.abs(np.array(io[key]) - np.array(want))) > 1e-7 * scale:
             return (f"{key}: differs from SciPy called with the forwarded triple (x, y, s={s_eff}); "
@@ -165,7 +172,9 @@ def oracle(c, io):
     y = floats([Fraction(v) for v in c["y"]])
     x = floats([Fraction(v) for v in c["x"]])
     n = len(y)
-    scale = max(1.0, max(abs(v) for v in y))
+    mean_ = sum(y) / n
+    # relative to the spread of the data, plus the rounding that the level itself forces on every value
+    scale = max(1.0, max(abs(v - mean_) for v in y)) + 1e-7 ** -1 * 256 * 2.3e-16 * max(abs(v) for v in y)
     if any(abs(a - b) > 1e-7 * scale for a, b in zip(io["fun0"], y)):
         return "to_function() with its default zero smoothing does not pass through every sample"
     if "fun0_after_edit" in io and any(abs(a - b) > 1e-7 * scale for a, b in zip(io["fun0_after_edit"], io["y_after_edit"])):
